@@ -586,9 +586,17 @@ def run(rep, tier):
         judged = [m_ for m_ in g.calls_named(r"EffectiveAuthority::may_read$") if any(g.dominates(pr.block, m_.block) for pr in present)]
         # every path to admit fetches the present row (when that fetch fails there is no present row to judge); the decision on it exists
         pb = {b for e in present for b in (e.block, e.call_block)}
-        late_adm = [a for a in adm if any(g.dominates(h.block, a.block) for h in hist)]
+        late_adm = [a for a in adm if any(g.can_reach([h.block], [a.block]) for h in hist)]     # (load admits both routes at one site)
+        # start where a historical row is in hand: the Some edge of the Option the single-row loader answered (a None is admitted as None)
+        starts = []
+        for h in hist:
+            somes_ = [m_["Some"] for (sb_, pl_, adt_, m_, els_) in g.variant_edges()
+                      if adt_ == "core::option::Option" and "Some" in m_ and m_["Some"] != els_ and g.dominates(h.block, sb_)
+                      and "Element" in g.locals[pl_.l] and not any(g.dominates(pr.block, sb_) for pr in present)
+                      and any(g.can_reach([m_["Some"]], [a.block]) for a in late_adm)]
+            starts.append(somes_[:1] if fname == "load" and somes_ else [h.block])
         ok = bool(present) and bool(judged) and bool(late_adm) and all(
-            not (g.reachable_from([h.block], avoid=pb) & {a.block}) or g.must_pass(pb, [a.block], start=h.block) for h in hist for a in late_adm)
+            g.must_pass(pb, [a.block], start=st0) for sts in starts for st0 in sts for a in late_adm if g.can_reach([st0], [a.block]))
         rep.ob("R19.8", "past-coordinate-judged-by-present-row|%s" % fname, ok,
                "Context::%s hands the historical row to admit without fetching the element's present row and putting it to may_read: an element raised to `secret` "
                "after seq 1 is still returned by AS OF SEQ 1 to a reader whose ceiling is `internal` (the code's own comment says a past coordinate is not a way "
